@@ -28,11 +28,11 @@ ASSUMPTIONS = ['the input object\'s own point() is the reference curve',
 TIERS = {
     'quick': {'shards': 14, 'random': 14000, 'timeout': 600, 'min_cases': 9000,
               'require_branches': ['op:translate', 'op:rotate', 'op:scale', 'op:transform', 'arc:nonuniform-scale-refused',
-                                   'M:reflection', 'M:shear', 'path:closed', 'arc:transform', 'arc:rotated-ellipse']},
+                                   'M:reflection', 'M:shear', 'path:closed', 'arc:transform', 'arc:rotated-ellipse', 'scale:nearly-uniform']},
     'thorough': {'shards': 14, 'random': 500000, 'timeout': 3000, 'min_cases': 250000,
                  'require_branches': ['op:translate', 'op:rotate', 'op:scale', 'op:transform',
                                       'arc:nonuniform-scale-refused', 'M:reflection', 'M:shear', 'path:closed',
-                                      'arc:transform', 'arc:rotated-ellipse']},
+                                      'arc:transform', 'arc:rotated-ellipse', 'scale:nearly-uniform']},
 }
 EPS = gen.EPS
 TS = [0, 1, 0.5, 0.125, 0.875, 0.3, 0.7, 0.0123, 0.9876]
@@ -367,6 +367,10 @@ def cases(ctx):
                    'origin': [rng.uniform(-20, 20), rng.uniform(-20, 20)] if op != 'scale' else None}
             if rng.random() < 0.2 and arg['sy'] is not None:
                 arg['sy'] = arg['sx']
+            elif rng.random() < 0.2 and arg['sy'] is not None:
+                # two factors that differ, but only slightly: still a non-uniform scaling
+                arg['sy'] = arg['sx'] * (1 + rng.choice([-1, 1]) * 10.0 ** rng.uniform(-9, -5.1))
+                cls.append('scale:nearly-uniform')
         else:
             M, mk = _matrix(rng)
             arg = {'M': [[float(x) for x in row] for row in M]}
@@ -383,6 +387,8 @@ def run_case(ctx, case):
             ctx.branch(k)
         if k in ('path:line', 'path:curve'):
             ctx.branch('path:closed')
+        if k == 'scale:nearly-uniform':
+            ctx.branch(k)
     if op == 'translate':
         c.translated(complex(*arg))
     elif op.startswith('rotate'):
